@@ -44,8 +44,9 @@ Definition sensing_result_of (cfg : sensing_config) (cloud : list point) (ig : n
   : sensing_result :=
   let g := snd ig in
   let k := scale_of cfg g in
-  let n := inside_num (g_box g) k cloud in
-  mkRes (fst ig) (box_crop_idx (g_box g) k true cloud) n
+  let ins := box_crop_idx (g_box g) k true cloud in      (* inside_pointcloud = crop_pointcloud(cloud, k) *)
+  let n := length ins in                                 (* inside_pointcloud_num = len(inside_pointcloud) *)
+  mkRes (fst ig) ins n
         (c_min_points cfg <=? Z.of_nat n)%Z
         (is_occluded (g_vis g)).
 
